@@ -41,7 +41,7 @@ def place_demo(cand, wt):
     """demo_cmd.txt is free text. Heuristics: *_test.go files go to the first repo directory named in the text;
     the command is the first `go test …` (or `sh …`/`bash …`) found. Returns (command, placed files)."""
     txt = open(os.path.join(cand, "demo_cmd.txt")).read()
-    txt = re.sub(r"<repo>|\$REPO|/tmp/mut/wt_C\d+", wt, txt)
+    txt = re.sub(r"<repo>|\$REPO|/tmp/mut/wt\d?_C\d+", wt, txt)
     files = [f for f in os.listdir(cand) if f not in ("patch.diff", "meta.json", "demo_cmd.txt")]
     dirs = []
     for d in re.findall(r"((?:pkg|internal|format|cmd)/[\w/\-.]+)", txt):
